@@ -159,7 +159,7 @@ func checkNewError(c *Ctx, p *Prog, rule, dir string) {
 	c.Ob(rule, dir+" newError: fields", ok, fmt.Sprintf("stores %v %s; required Err = the given error, StackTop = top state, ErrorToken = the current look-ahead", st, out.Undecided), p.FnPos(fn))
 	for _, has := range []bool{true, false} {
 		ps := &parserSumm{}
-		reg := &Region{Fn: fn, Start: hs[0], Cuts: cutSet(hs[0]), Summaries: ps.summaries(nil), PhiInputs: map[string]Val{"rangeindex": VSym{Name: "i"}}}
+		reg := &Region{Fn: fn, Start: hs[0], Cuts: cutSet(hs[0]), StalePrologue: true, Summaries: ps.summaries(nil), PhiInputs: map[string]Val{"rangeindex": VSym{Name: "i"}}}
 		w := &MapWorld{Ints: map[string]int64{"i": 1}, AtomFn: func(key string) (bool, bool) {
 			if strings.HasSuffix(key, "== nil") {
 				return !has, true
